@@ -85,6 +85,23 @@ Subset extensions used there (switched on per unit, so the earlier generated fil
   `free_generic`: free functions `const fn f<const LIMBS: usize>(a: &Uint<LIMBS>, m: &Odd<Uint<LIMBS>>) -> Uint<LIMBS>`
   (a unit with `self_ty=None`, `generic='LIMBS'`, gathered from whole files): `Uint<LIMBS>` is the limb list, `Odd<Uint<LIMBS>>`
   a newtype over it (`.0` is the value).
+Last unit of that file (namespace CB.Gen.Modular.Reduction): src/modular/reduction.rs `montgomery_reduction_inner` (nested `while`
+loops over `&mut [Limb]` slices) and `montgomery_reduction` (C08).  Extensions (again per unit: `slices`, `nat_loops`):
+  `&[Limb]` / `&mut [Limb]` parameters are limb lists, `s.len()` is `s.length` (a `Nat`), `s[i]` / `s[i] = e` as for arrays;
+  a function with `&mut [Limb]` parameters RETURNS their final values, in parameter order, in front of its result
+  (`montgomery_reduction_inner .. : upper' × lower' × meta_carry`); a call is supported in the form `let r = f(&mut a.limbs, ..);`
+  (the passed variables are rebound to the returned values), anywhere else it is unsupported;
+  parameter lists with parentheses (`lower_upper: &(Uint<LIMBS>, Uint<LIMBS>)`), `let (mut a, mut b) = *pair;`;
+  `let mut x;` (declared, assigned later): a scratch variable — each assignment binds it for the rest of the enclosing block, it
+  is never loop state, and reading it where no assignment of the same block precedes is unsupported;
+  tuple assignment `(a, b) = e;`;  `usize` subtraction in indices and loop bounds (`upper[i + j - nlimbs]`, `j < nlimbs - i`) as
+  truncated `Nat` subtraction (equal whenever the Rust expression does not overflow);
+  a fifth `while` form (`nat_loops` units, used for every loop of the unit):
+    - `while j < BOUND { ..; j += k; }` where the counter is a literal OR a symbolic `Nat` at entry and may be used after the loop
+      (`j` runs on from the first inner loop into the second), BOUND any `Nat` expression the loop does not change, and the body
+      may contain further such loops: `<fn>_loop<n> captured.. : Nat → Nat → state.. → Nat × state` by recursion on a fuel
+      argument (called with BOUND - start), re-testing `j < BOUND` every round and returning the final counter in front of
+      the state; state = the outer variables assigned in the body or in a loop nested in it (declaration order).
 """
 import os, re, sys, json
 
@@ -913,6 +930,8 @@ class Gen:
                 tb = 64
             if ta != tb:
                 raise Unsupported(f'operand types differ: {ta} {tb}')
+            if ta == 'nat' and OPTS.get('nat_loops') and op in ('+', '-'):
+                return f'({a} {op} {b})', 'nat'          # `let idx = i + j;` (truncated subtraction, see above)
             if ta == 'nat':
                 raise Unsupported('index arithmetic')
             if op in ('==', '!=', '<', '>', '<=', '>='):
